@@ -134,6 +134,12 @@ theorem C03_total (opt : Bool) (data : Bytes) :
 example : parse true [0x04, 0x00] = .error .syntax ∧ parse true [0x82] = .ok [] ∧
     parse true [0x82, 0x2d] = .error .eof := ⟨rfl, rfl, rfl⟩
 
+/-- Payloads (shared with C06): on every accepted tape each key / value token is the decoding of a
+lexeme of the input — strings are slices of the input, numbers its little-endian bytes. -/
+theorem C03_payloads (opt : Bool) (data : Bytes) (toks : Tape) (h : parse opt data = .ok toks) :
+    ∀ x ∈ toks, x.isPlain = false ∨ x = .mixed ∨ ∃ off, off ≤ data.length ∧ LexTok (data.drop off) x :=
+  C06_bin_payloads opt data toks h
+
 /-- Truncation (shared with C19): the tape of an accepted prefix of the input is a prefix of the tape
 of the whole input. -/
 theorem C03_cut_prefix (opt : Bool) (data : Bytes) (k : Nat) (t' t : Tape)
